@@ -30,6 +30,7 @@ let p_action () = match next () with
     AStart (st, hs, e)
   | "W" -> AWrite (p_bytes ())
   | "R" -> ARaise (p_exn ())
+  | "M" -> let i = p_int () in let isv = p_bool () in let v = p_str () in AMutate (nat_of_int i, isv, v)
   | s -> failwith ("bad action " ^ s)
 let p_actions () = let n = p_int () in p_list n p_action
 let p_step () =
